@@ -1109,8 +1109,13 @@ func (e *env) runAead(kind, kt string, nLineages int, aeadTypes []string) {
 
 		for i := 0; i < rot; i++ {
 			rkt := kt
-			if li%4 == 3 && len(aeadTypes) > 0 {
-				rkt = aeadTypes[r.Intn(len(aeadTypes))] // mixed key types in one keyset
+			if li%2 == 1 && len(aeadTypes) > 1 {
+				// keys of different types in one keyset (different nonce sizes / prefix types); the first rotation of
+				// such a lineage always changes the key type
+				rkt = aeadTypes[r.Intn(len(aeadTypes))]
+				for i == 0 && rkt == kt {
+					rkt = aeadTypes[r.Intn(len(aeadTypes))]
+				}
 			}
 
 			nid, nh, e2 := a.kms.Rotate(kms.KeyType(rkt), kid)
